@@ -696,3 +696,22 @@ Example loop_incomplete_tail :
   o = StopErr /\ consumed_of tr = [97] /\ infl term s' = [27; 91; 51] /\ pending (lr term s') = [] /\
   parse_one (fun _ => 1) false (logical_pending term s') = PMore.
 Proof. vm_compute. repeat split; auto. Qed.
+
+
+(* ---------- SetTee during a read ---------- *)
+Lemma tee_sw_run_spec : forall rs cur a b,
+  tee_sw_run rs cur a b = (a ++ tee_gets 1 (tee_in_force rs cur), b ++ tee_gets 2 (tee_in_force rs cur)).
+Proof.
+  induction rs as [|[res sw] rs IH]; intros cur a b; cbn [tee_sw_run tee_in_force tee_gets flat_map].
+  - rewrite !app_nil_r. reflexivity.
+  - fold (tee_gets 1 (tee_in_force rs (if sw =? 0 then cur else sw))).
+    fold (tee_gets 2 (tee_in_force rs (if sw =? 0 then cur else sw))).
+    cbn [fst snd]. set (c := if sw =? 0 then cur else sw).
+    destruct (0 <? zlen (fst res)) eqn:El.
+    + destruct (c =? 1) eqn:E1.
+      * apply Z.eqb_eq in E1. rewrite IH. rewrite E1. cbn [Z.eqb Pos.eqb]. rewrite <- app_assoc. reflexivity.
+      * destruct (c =? 2) eqn:E2; rewrite IH; [rewrite <- app_assoc|]; reflexivity.
+    + apply Z.ltb_ge in El. assert (fst res = []) as ->.
+      { destruct (fst res); [reflexivity|]. unfold zlen in El. cbn [length] in El. lia. }
+      rewrite IH. destruct (c =? 1); destruct (c =? 2); reflexivity.
+Qed.
